@@ -27,6 +27,7 @@ type c10Case struct {
 	Origin  string        `json:"origin,omitempty"` // well-formed | injected:<class> | mutated (for the evidence only)
 	Roots   int           `json:"roots,omitempty"`
 	Heading bool          `json:"heading,omitempty"`
+	Inodes  int           `json:"inodes,omitempty"` // mkdir: the target file system has room for Inodes-1 entries (ENOSPC beyond)
 	CbFail  int           `json:"cbFail,omitempty"` // walk: k>0 = the (k-1)-th callback (in call order) returns an error
 	CbErr   int           `json:"cbErr,omitempty"`  // which error value it returns (ops.CallbackErr)
 }
@@ -55,7 +56,7 @@ func c10Make(c c10Case, massive bool) ops.Case {
 	case "mkdir":
 		cs.Op = "mkdir"
 		cs.Opts.Exts = c.Exts
-		cs.FS = &ops.FSSpec{Pre: c.Pre}
+		cs.FS = &ops.FSSpec{Pre: c.Pre, InodeLimit: c.Inodes}
 	case "verify":
 		cs.Op = "verify"
 		cs.Opts.Strict = c.Strict
@@ -491,7 +492,11 @@ func c10Gen() *rapid.Generator[c10Case] {
 				}
 			}
 		}
+		if op == "mkdir" && mountOK() && rapid.IntRange(0, 4).Draw(t, "fsFull") == 0 {
+			c.Inodes = 1 + rapid.IntRange(0, f.Count()).Draw(t, "room")
+		}
 		if op == "mkdir" && rapid.IntRange(0, 5).Draw(t, "preroot") == 0 {
+			c.Inodes = 0
 			c.Pre = []ops.FSEntry{{Path: f[rapid.IntRange(0, len(f)-1).Draw(t, "which")].Name, Kind: "d"}}
 		}
 		c.Sched = genSched(t)
@@ -519,6 +524,9 @@ func c10Record(col *collector, c c10Case, mres *ops.Result) {
 	if c.CbFail > 0 {
 		cl = append(cl, "callback-fails")
 	}
+	if c.Inodes > 0 {
+		cl = append(cl, "file-system-runs-full")
+	}
 	if bytes.HasPrefix(c.Doc, []byte("\n")) || bytes.HasPrefix(c.Doc, []byte(" \n")) || bytes.HasPrefix(c.Doc, []byte("\r\n")) {
 		cl = append(cl, "leading-blank-line")
 	}
@@ -527,7 +535,7 @@ func c10Record(col *collector, c c10Case, mres *ops.Result) {
 		cl = append(cl, "hook:"+p)
 	}
 	nontrivial := c.Roots >= 3 || c.Origin != "well-formed"
-	col.eval(nontrivial, hash64(string(c.Doc), fmt.Sprint(c.Op, c.Branch, c.Exts, c.Strict, c.Pre, c.Sched, c.CbFail, c.CbErr)), cl...)
+	col.eval(nontrivial, hash64(string(c.Doc), fmt.Sprint(c.Op, c.Branch, c.Exts, c.Strict, c.Pre, c.Sched, c.CbFail, c.CbErr, c.Inodes)), cl...)
 	col.sample(func() any {
 		return map[string]any{"doc": truncate(string(c.Doc), 300), "op": c.Op, "origin": c.Origin, "sched": c.Sched}
 	})
